@@ -4,6 +4,7 @@
 //! never reported as proved.
 use serde_json::{json, Value};
 
+pub mod pushcond;
 pub mod redact;
 pub mod sign;
 pub mod uri;
@@ -28,6 +29,7 @@ impl Report {
 pub fn run(name: &str, tier: &str) -> Option<Value> {
     Some(match name {
         "redact" => redact::run(tier).to_json(),
+        "pushcond" => pushcond::run(tier).to_json(),
         "sign" => sign::run(tier).to_json(),
         "uri" => uri::run(tier).to_json(),
         _ => return None,
